@@ -20,7 +20,7 @@ THEOREMS = [P + t for t in (
     'C17_terminates', 'C17_ok_iff', 'C17_never_wrong', 'C17_depth_independent', 'C17_notfound', 'C17_notExist_only_if',
     'C17_otherwise', 'C17_cycle_real', 'C17_spec_reads_sentence', 'C17_stat_meets_spec', 'C17_open_meets_spec',
     'C17_readdir_follows_open', 'C17_open_then_stat', 'C17_outside', 'C17_outside_iff',
-    'C17_target_canonical', 'C17_stored_target', 'C17_hardlink_target', 'C17_loader_models_agree')]
+    'C17_target_canonical', 'C17_stored_target', 'C17_hardlink_target', 'C17_required_link_survives', 'C17_loader_models_agree')]
 
 
 def _hist(case):
@@ -30,7 +30,7 @@ def _hist(case):
 
 def _entries(case):
     t = case.split(' ')
-    if len(t) not in (3, 4) or t[-1] == '-':
+    if t[0] != 'sym' or len(t) not in (3, 4) or t[-1] == '-':
         return []
     out = []
     for e in t[-1].split(','):
@@ -58,7 +58,8 @@ def run(ctx):
                 'every graph on 1..3 names with options F D M X / relative symlink / absolute symlink / tar hard link to any entry (7+100+2197 graphs, each under all six config-history modes), every such graph on 4 names (16^4 = 65 536, history mode rotating), and every graph on 5 names with options F D M X / relative link / absolute link to any entry (14^5 = 537 824, history mode rotating, the absolute link written as an absolute symlink or as a hard link by a hash of the index); each loaded 7 times (depths 0..6) and observed in both views (Stat, Open, ReadDir of every entry); plus 20 000 random graphs and the corpus; '
                 'the QUICK tier is a seeded 3 000-graph sample plus the corpus and enumerates nothing exhaustively — an evidence file of tier quick does not claim the enumeration. '
                 'every case also fixes how the image\'s config history is written (H one entry per layer, E valid with empty-layer entries before/between/after so that views are observed on EMPTY chain layers, N none, S short, G one entry too many, X empty entries and a missing one: the last four take initializeChainLayers\' fallback branch) and, for 1 in 12 random cases, that the image is saved to a tarball and loaded with image.FromTarball instead of FromV1Image (FromRemoteName shares that path and needs a registry); the specification does not mention the history: the answers must be the same. '
-                'case = one symlink graph (entries: F file, D dir, M missing, X deleted by layer 1, L symlink, Y symlink deleted by layer 1, H tar hard link — which the loader turns into a link node whose target is read from the image root) observed at depths 0..6 in both views; '
+                'every observation has four parts: Stat, Open (+Stat on the handle), ReadDir on the view, and Stat on the observed chain layer\'s OWN file system (Layer().FS(): only that layer\'s entries, symlinks not followed); the root is observed as "." (its listing shows every top-level entry); ChainLayer.Index() of every chain layer is compared; at depth 6 the image is loaded with image.DefaultConfig(); one `probe` case per run holds the entry points against unusable inputs (invalid configurations, missing tarball, unreadable layer list / contents, empty image); 1 in 25 random cases is pushed to an in-process registry and loaded with image.FromRemoteName; history mode C = the image\'s ConfigFile() fails. '
+                'case = one symlink graph (entries: F file, D dir, M missing, X deleted by layer 1, Z directory with a child deleted by layer 1, L symlink, Y symlink deleted by layer 1, H tar hard link — which the loader turns into a link node whose target is read from the image root) observed at depths 0..6 in both views; '
                 'thorough enumerates every graph on 1..5 names with relative and absolute canonical link spellings (6+64+1000+20736+537824 graphs; 5 names use the layout a,b,c,s/d,s/e); '
                 'random cases use up to 9 names in nested directories, 40% long chains, noisy/unclean/outside-root/empty link names. non-trivial = at least two symlink entries; '
                 'distinct = distinct case lines. oracle = specWalk verdict of the Lean driver (the sentence read strictly, on the graph whose links point where their names DENOTE by the specification\'s own lexical resolver) vs the implementation\'s Stat class, Open\'s own class and ReadDir\'s error class')
@@ -73,15 +74,20 @@ def run(ctx):
     def oracle(case, fi, fm):
         if '_' in fi or '_' in fm:          # loaderr / panic / bad-op: nothing for the specification to judge
             return 'the implementation panicked' if fi.get('_') == 'panic' else None
-        ents = _entries(case)
+        if case == 'probe':
+            # unusable inputs: invalid configurations are refused (validConfig), unreadable inputs are errors, the empty image loads
+            bad = [k for k in ('cfg', 'tb', 'ly', 'un', 'empty') if fi.get(k) != fm.get(k)]
+            return ('entry points on unusable inputs: %s, the specification says %s' % (
+                ' '.join('%s=%s' % (k, fi.get(k)) for k in bad), ' '.join('%s=%s' % (k, fm.get(k)) for k in bad))) if bad else None
+        ents = _entries(case) + [('2e', '.', '')]          # the root, observed as "."
         d = 0
         while 'd%d' % d in fi and 's%d' % d in fm:
             for v, (iv, sv) in enumerate(zip(fi['d%d' % d].split('/'), fm['s%d' % d].split('/'))):
                 for (n, k, l), it, st in zip(ents, iv.split(','), sv.split(',')):
                     parts = it.split('.')
-                    if len(parts) != 3:
+                    if len(parts) != 4:
                         return 'unparsable observation %r' % it
-                    s, o, r = parts
+                    s, o, r = parts[:3]         # the 4th part (the layer's own file system) is tied to the model only
                     # Open is judged on ITS OWN result: "on" = a handle was returned for something whose Stat says
                     # not-exist; that is not "not found"
                     oc = 'handle-then-not-exist' if o == 'on' else (o[1:] if o.startswith('o') else o)
@@ -97,7 +103,7 @@ def run(ctx):
     def classify(case, fi, fm):
         return 'hist=%s %s' % (_hist(case), fm.get('cls', fm.get('_', '?')))
 
-    keys = ['_'] + ['d%d' % d for d in range(7)]
+    keys = ['_', 'ix', 'cfg', 'tb', 'ly', 'un', 'empty'] + ['d%d' % d for d in range(7)]
     if ctx.tier == 'thorough' and not ctx.replay:
         parts = 8
         for p in range(parts):
